@@ -428,6 +428,98 @@ def check_mirror(rep, config):
     Rc.notes.append('asm-only names: %s' % sorted(set(cdrop2)))
 
 
+PARKED = ['write_overflow_lits', 'write_overflow_len', 'copy_overflow_length', 'copy_overflow_distance']
+
+
+def check_rollback(rep):
+    """The block decoders give up with ISAL_END_INPUT after restoring the input position they saved before the symbol group they
+    could not finish, so that the whole group is decoded again by the next call.  Output that the group had already parked in the
+    state (a literal that did not fit, a pending match copy) must not survive that exit, or streaming emits it twice."""
+    import llir, irrules, provenance, mirror
+    import c19
+    from asmdb import REG64, parse_mem, is_mem
+    R = rep.rule('R-ROLLBACK-CLEAN', 'asm block decoders (both kernels): at every exit that returns ISAL_END_INPUT, each parked-output field of the state (write_overflow_lits/len, '
+                 'copy_overflow_length/distance) holds either the value it had on entry or a stored constant 0 - reaching-definitions of the field per exit code; a non-zero parked value never reaches the roll-back exit',
+                 floor=2, unit='decoders')
+    codes, _ = mirror.c_values('default', ['igzip_lib.h'], [('END', 'ISAL_END_INPUT')], 'c02_codes')
+    END = codes['END']
+    off = c19.field_offsets('struct inflate_state', PARKED)
+    sizes = {n: 4 for n in PARKED}
+    # ---- asm
+    res, _ = provenance.analyse('default')
+    for sym in ('decode_huffman_code_block_stateless_01', 'decode_huffman_code_block_stateless_04'):
+        info = res.get(sym)
+        if info is None:
+            raise AnalysisBroken(sym + ' not found')
+        R.instance()
+        u, f, fl = info['unit'], info['func'], info['flow']
+        stores = {}
+        for a in info['accesses']:
+            if a.kind in ('store', 'rmw') and a.addr[0] == 'P' and a.addr[1] == 'STATE' and a.addr[2] is not None and a.addr[2][1] == 0:
+                for n in PARKED:
+                    if a.addr[2][0] < off[n] + 4 and off[n] < a.addr[2][0] + a.size:
+                        src = a.insn.ops[1] if len(a.insn.ops) > 1 else None
+                        zero = False
+                        if src is not None and re.match(r'^(0x0+|0)$', src):
+                            zero = True
+                        elif src in REG64:
+                            v = fl.rd(fl.IN[a.insn.addr], src)
+                            zero = (v == ('AFF', 0, 0))
+                        stores.setdefault(a.insn.addr, []).append((n, 'Z' if zero else a.insn))
+        if not stores:
+            raise AnalysisBroken('%s: no store to the parked-output fields recognised' % sym)
+        # state: {rax-def key: {field: frozenset of 'E' / 'Z' / insn}}
+        init = {None: {n: frozenset(['E']) for n in PARKED}}
+        IN = {f.entry: init}
+        work = [f.entry]
+        while work:
+            x = work.pop()
+            st = {k: dict(v) for k, v in IN[x].items()}
+            i = u.insns[x]
+            for n, val in stores.get(x, []):
+                for k in st:
+                    st[k][n] = frozenset([val])
+            if i.ops and i.ops[0] in ('rax', 'eax') and i.mn in ('mov', 'xor'):
+                merged = {n: frozenset().union(*[v[n] for v in st.values()]) for n in PARKED}
+                val = None
+                if i.mn == 'mov' and re.match(r'^(0x[0-9a-f]+|-?\d+)$', i.ops[1]):
+                    val = int(i.ops[1], 0) & 0xffffffff
+                elif i.mn == 'xor' and i.ops[0] == i.ops[1]:
+                    val = 0
+                st = {(x, val): merged}
+            for nx in u.succ(f, x):
+                if nx not in IN:
+                    IN[nx] = st
+                    work.append(nx)
+                else:
+                    old = IN[nx]
+                    new = {}
+                    for k in set(old) | set(st):
+                        if k in old and k in st:
+                            new[k] = {n: old[k][n] | st[k][n] for n in PARKED}
+                        else:
+                            new[k] = old[k] if k in old else st[k]
+                    if new != old:
+                        IN[nx] = new
+                        work.append(nx)
+        nexit = 0
+        for x in f.addrs:
+            if u.insns[x].mn != 'ret' or x not in IN:
+                continue
+            for k, fields in IN[x].items():
+                if k is None or k[1] != (END & 0xffffffff):
+                    continue
+                nexit += 1
+                for n in PARKED:
+                    bad = [v for v in fields[n] if v not in ('E', 'Z')]
+                    R.check(not bad, '%s: %s' % (u.name, u.where(u.insns[k[0]], f)), 'the ISAL_END_INPUT exit can be reached with state->%s as stored by "%s" (%s): the decoder rolls the input back to the start of the symbol group but keeps the output it parked, '
+                            'so the next call emits it again' % (n, bad[0].text if bad else '', u.where(bad[0], f) if bad else ''), key='R-ROLLBACK-CLEAN|%s|%s' % (sym, n),
+                            sample='%s: END_INPUT exit leaves %s = entry value or 0' % (sym, n) if n == 'write_overflow_len' else None)
+        if not nexit:
+            raise AnalysisBroken('%s: no exit returning ISAL_END_INPUT found' % sym)
+    R.notes.append('portable C decoder: not decided by this rule - in the C loop the parked fields are followed by value-dependent returns (avail_out == 0 implies copy_overflow_length > 0 implies return), which a reaching-definitions analysis cannot separate from the roll-back exits')
+
+
 def main(tier):
     rep = Report('C02', tier, level='other')
     rep.undecided = UNDECIDED
@@ -442,4 +534,5 @@ def main(tier):
     for c in CONFIGS:
         check_pregen(rep, c)
         check_mirror(rep, c)
+    check_rollback(rep)
     return rep.finish()
